@@ -101,9 +101,9 @@ type resetRunner struct {
 	// orc, if set, is the property oracle applied to the reset parser's run
 	// (C12 uses the reset-prior driver with its own oracle); the comparison
 	// with a fresh parser is C13's and is skipped then.
-	orc *Oracle
-	bufSize        int
-	bFor           string
+	orc     *Oracle
+	bufSize int
+	bFor    string
 }
 
 func newResetRunner(st *engine.Stats, col *engine.Collector, menu Menu) *resetRunner {
